@@ -63,13 +63,40 @@ def _alarm(signum, frame):
     raise TimeoutError("work item exceeded %d s wall clock" % ITEM_TIMEOUT)
 
 
+def lib_exception(e):
+    """if the exception was raised inside the library under test (and is not a harness error), a short
+    description 'Type at file:function'; else None.  An exception escaping a public API call in a scenario
+    whose reference expects success is a violation of that scenario, not a harness failure."""
+    from .rt import HarnessError
+    if isinstance(e, (HarnessError, TimeoutError, KeyboardInterrupt, MemoryError)):
+        return None
+    repo = os.path.realpath(os.environ.get('J1939_VERIF_REPO', '/repo')) + os.sep
+    tb = e.__traceback__
+    where = None
+    while tb is not None:
+        fn = os.path.realpath(tb.tb_frame.f_code.co_filename)
+        if fn.startswith(repo):
+            where = "%s:%s" % (os.path.basename(fn), tb.tb_frame.f_code.co_name)
+        tb = tb.tb_next
+    if where is None:
+        return None
+    return "%s at %s" % (type(e).__name__, where)
+
+
 def _call(args):
     fn, item = args
     signal.signal(signal.SIGALRM, _alarm)
     signal.alarm(ITEM_TIMEOUT)
     try:
         return ('ok', fn(item))
-    except BaseException:
+    except BaseException as e:
+        d = lib_exception(e)
+        if d is not None:
+            a = Acc()
+            a.evals = 1
+            a.violation("the library raised %s out of a public call the scenario expects to succeed" % d,
+                        {'work_item': repr(item)[:2000]}, None, traceback.format_exc()[-1500:])
+            return ('ok', a)
         return ('err', "item %r\n%s" % (item, traceback.format_exc()))
     finally:
         signal.alarm(0)
